@@ -133,7 +133,7 @@ def run_table(run, binary, base):
                          sample={'table_cell': [sk, ss, dk, ds, link_to_dir], 'expected': want, 'exit': r['exit']})
                 bad = None
                 # what the source object is, as the walk sees it (a link spelled with '/' to a folder is that folder)
-                src_obj = e2e.snapshot(os.path.join(root, 's', 'a') + ('/' if (sk == 'link' and ss and link_to_dir) else ''))
+                src_obj = e2e.snapshot(os.path.realpath(os.path.join(root, 's', 'a')) if (sk == 'link' and ss and link_to_dir) else os.path.join(root, 's', 'a'))
                 if after_s != before_s:
                     bad = 'source side changed'
                 elif want == 'X':
